@@ -561,11 +561,16 @@ def plan(tier):
         for op in TWO_Q:
             for a, b in itertools.permutations(regs, 2):
                 jobs.append((DmCompileOne(op=op, n_p=n_p, n_e=n_e, regs=[list(a), list(b)], det="probabilistic", c=0), {}))
+        big = n_p + n_e >= 3  # 8x8 symbolic rho divided by a symbolic norm: a few QF_NRA obligations per job may stay undecided
         for r in regs:
             for det in (0, 1, "probabilistic"):
-                jobs.append((DmCompileOne(op="MeasurementZ", n_p=n_p, n_e=n_e, regs=[list(r)], det=det, c=1), {}))
+                h = DmCompileOne(op="MeasurementZ", n_p=n_p, n_e=n_e, regs=[list(r)], det=det, c=1)
+                h.partial_ok = big
+                jobs.append((h, {}))
         for op in ("ClassicalCNOT", "ClassicalCZ", "MeasurementCNOTandReset"):
             for a, b in itertools.permutations(regs, 2):
                 for det in (0, 1, "probabilistic"):
-                    jobs.append((DmCompileOne(op=op, n_p=n_p, n_e=n_e, regs=[list(a), list(b)], det=det, c=1), {}))
+                    h = DmCompileOne(op=op, n_p=n_p, n_e=n_e, regs=[list(a), list(b)], det=det, c=1)
+                    h.partial_ok = big
+                    jobs.append((h, {}))
     return jobs
